@@ -100,6 +100,17 @@ fn c08_eval(ctx: &mut Ctx, known: &Known, members: &[Yaml], docs: &[Yaml], tag: 
     let col = |j: usize| -> Vec<Tri> { member_res.iter().map(|v| v[j]).collect() };
     let list = Yaml::Sequence(members.to_vec());
     let seq_of_maps = Yaml::Sequence(members.iter().map(|m| map1("f", m.clone())).collect());
+    // documents in which field g mirrors field f (for entries with two keys)
+    let docs_g: Vec<Yaml> = docs
+        .iter()
+        .map(|d| {
+            let mut m = d.as_mapping().cloned().unwrap_or_default();
+            if let Some(v) = m.get(ys("f")).cloned() {
+                m.insert(ys("g"), v);
+            }
+            Yaml::Mapping(m)
+        })
+        .collect();
     let mut forms: Vec<(String, Vec<(String, Yaml)>, Box<dyn Fn(&[Tri]) -> Tri>)> = vec![];
     forms.push(("plain list on a key".into(), vec![("A".into(), map1("f", list.clone())), ("condition".into(), ys("A"))], Box::new(|v| t_or(v))));
     forms.push(("all(k)".into(), vec![("A".into(), map1("all(f)", list.clone())), ("condition".into(), ys("A"))], Box::new(|v| t_and(v))));
@@ -109,9 +120,28 @@ fn c08_eval(ctx: &mut Ctx, known: &Known, members: &[Yaml], docs: &[Yaml], tag: 
         forms.push((format!("of(k, {})", nn), vec![("A".into(), map1(&format!("of(f, {})", nn), list.clone())), ("condition".into(), ys("A"))], Box::new(move |v| t_of(nn, v))));
         forms.push((format!("of(X, {}) over a sequence of mappings", nn), vec![("X".into(), seq_of_maps.clone()), ("condition".into(), ys(&format!("of(X, {})", nn)))], Box::new(move |v| t_of(nn, v))));
     }
+    // a sequence with ONE entry: all()/of() count that entry, not what is inside it
+    {
+        let one_list = Yaml::Sequence(vec![map1("f", list.clone())]);
+        forms.push(("all(X) over a one-entry sequence whose entry holds the list".into(), vec![("X".into(), one_list.clone()), ("condition".into(), ys("all(X)"))], Box::new(|v| t_or(v))));
+        for nn in 0..=2usize {
+            forms.push((format!("of(X, {}) over a one-entry sequence whose entry holds the list", nn), vec![("X".into(), one_list.clone()), ("condition".into(), ys(&format!("of(X, {})", nn)))], Box::new(move |v| t_of(nn, &[t_or(v)]))));
+        }
+        if len >= 2 {
+            let mut e = serde_yaml::Mapping::new();
+            e.insert(ys("f"), members[0].clone());
+            e.insert(ys("g"), members[1].clone());
+            let one_two = Yaml::Sequence(vec![Yaml::Mapping(e)]);
+            forms.push(("all(X) over a one-entry sequence with a two-key entry [g mirrors f]".into(), vec![("X".into(), one_two.clone()), ("condition".into(), ys("all(X)"))], Box::new(|v| t_and(&v[..2]))));
+            for nn in 0..=2usize {
+                forms.push((format!("of(X, {}) over a one-entry sequence with a two-key entry [g mirrors f]", nn), vec![("X".into(), one_two.clone()), ("condition".into(), ys(&format!("of(X, {})", nn)))], Box::new(move |v| t_of(nn, &[t_and(&v[..2])]))));
+            }
+        }
+    }
     let mut known_hits = 0;
     for (name, det, table) in forms {
-        let c = case_of(det, docs.to_vec(), vec![0, 2, 15]);
+        let use_docs: &[Yaml] = if name.contains("[g mirrors f]") { &docs_g } else { docs };
+        let c = case_of(det, use_docs.to_vec(), vec![0, 2, 15]);
         let (ex, p) = run_rule_case(ctx, &c, false);
         let p = match p {
             Some(p) if p.load == "ok" => p,
@@ -261,7 +291,7 @@ fn my_of_yaml(y: &Yaml) -> MyVal {
     }
 }
 
-fn json_of_yaml(y: &Yaml) -> Option<serde_json::Value> {
+pub fn json_of_yaml(y: &Yaml) -> Option<serde_json::Value> {
     Some(match y {
         Yaml::Null => serde_json::Value::Null,
         Yaml::Bool(b) => serde_json::Value::Bool(*b),
@@ -325,6 +355,25 @@ pub fn run_c11(ctx: &mut Ctx, _known: &Known) {
     k!(9223372036854775808u64, "uint:9223372036854775808");
     k!(usize::MAX, format!("uint:{}", usize::MAX));
     k!(1.5f32, format!("float:{}", (1.5f64).to_bits()));
+    for x in [0.1f32, 0.2, 1.1, -3.3, f32::MAX, f32::MIN, f32::MIN_POSITIVE, f32::EPSILON, 16777216.0, 1e-10, 123456.79, -0.0, 0.3333333] {
+        // widening is exact: the f64 has the value of the f32, not of its decimal rendering
+        kinds.push((format!("{:?}f32", x), kind_name(&x.as_value()), format!("float:{}", (x as f64).to_bits())));
+    }
+    for x in [0.1f64, 1e300, -1e-300, f64::MIN_POSITIVE, 2.5, 9007199254740993.0] {
+        kinds.push((format!("{:?}f64", x), kind_name(&x.as_value()), format!("float:{}", x.to_bits())));
+    }
+    k!(i8::MIN, format!("int:{}", i8::MIN));
+    k!(i8::MAX, format!("int:{}", i8::MAX));
+    k!(i32::MIN, format!("int:{}", i32::MIN));
+    k!(i32::MAX, format!("int:{}", i32::MAX));
+    k!(isize::MIN, format!("int:{}", isize::MIN));
+    k!(0u8, "uint:0");
+    k!(0i64, "int:0");
+    k!(u8::MAX, "uint:255");
+    k!(false, "bool:false");
+    k!(String::new(), "str:");
+    k!(Some(0.1f32), format!("float:{}", (0.1f32 as f64).to_bits()));
+    k!(vec![0.1f32, 2.5], format!("arr[float:{},float:{}]", (2.5f64).to_bits().min((0.1f32 as f64).to_bits()), (2.5f64).to_bits().max((0.1f32 as f64).to_bits())));
     k!(-0.0f64, format!("float:{}", (-0.0f64).to_bits()));
     k!(f64::MAX, format!("float:{}", f64::MAX.to_bits()));
     k!(true, "bool:true");
@@ -432,6 +481,42 @@ fn extreme_doc(r: &mut Rng) -> Yaml {
 pub fn run_c12(ctx: &mut Ctx, _known: &Known) {
     let n = budget(ctx, 250, 6000);
     let mut fresh = Driver::spawn_cmd(&std::env::current_exe().unwrap().to_string_lossy(), &["serve"]).expect("serve");
+    // (0) loading is a function of the rule text alone: a rule's verdicts do not depend on which
+    //     rules this process loaded before it (same regex text under the other case flag, same
+    //     needles under another match kind), and a process that never saw the other rule agrees
+    let npairs = budget(ctx, 12, 120);
+    for k in 0..npairs {
+        let mut r = Rng::new(ctx.seed.wrapping_mul(977).wrapping_add(k as u64));
+        let word = format!("{}{}{}", r.pick(&["ab", "evil", "Cmd", "x"]), k, r.pick(&["c", "Z", ".exe"]));
+        let variants: Vec<String> = match r.below(3) {
+            0 => vec![format!("?{}", word), format!("i?{}", word)],
+            1 => vec![format!("?^{}$", word), format!("i?^{}$", word), format!("?{}", word)],
+            _ => vec![format!("{}*", word), format!("i{}*", word), format!("*{}", word), format!("i*{}", word)],
+        };
+        let mut order: Vec<usize> = (0..variants.len()).collect();
+        if k % 2 == 1 {
+            order.reverse();
+        }
+        let docs: Vec<Yaml> = vec![
+            map1("s", ys(&word)), map1("s", ys(&word.to_uppercase())), map1("s", ys(&word.to_lowercase())),
+            map1("s", ys(&format!("x{}y", word))), map1("s", ys(&format!("{}y", word.to_uppercase()))), map1("s", ys(&format!("x{}", word.to_lowercase()))),
+        ];
+        for &vi in &order {
+            let c = case_of(vec![("A".into(), map1("s", ys(&variants[vi]))), ("condition".into(), ys("A"))], docs.clone(), vec![0, 15, 4]);
+            let (ex, parsed) = run_rule_case(ctx, &c, false);
+            if !matches!(parsed, Some(ref p) if p.load == "ok") {
+                continue;
+            }
+            let ry = rule_yaml(&c);
+            if let Ok(mut brand_new) = Driver::spawn_cmd(&std::env::current_exe().unwrap().to_string_lossy(), &["serve"]) {
+                let other = brand_new.ask(&ex.line);
+                if other != ex.imp && !other.starts_with("DRIVER") {
+                    ctx.violation("oracle", &format!("rule `s: {}` loaded after {:?} in this process answers differently from a process that loaded only this rule: {}", variants[vi], order.iter().take_while(|&&o| o != vi).map(|&o| variants[o].clone()).collect::<Vec<_>>(), first_diff(&ex.imp, &other)), &ex, &ry, true);
+                }
+            }
+            ctx.nontrivial.insert(hash_str(&ex.line));
+        }
+    }
     for i in 0..n {
         let mut r = Rng::new(ctx.seed.wrapping_mul(613).wrapping_add(i as u64));
         let mut c = gen_case(&mut r, vec![0, 15, 10, 7], 5);
@@ -547,7 +632,71 @@ pub fn run_c12(ctx: &mut Ctx, _known: &Known) {
 
 // ------------------------------------------------------------------------------------ C14
 
+/// Loading from text and loading from the YAML value of that text agree: hand-written text whose
+/// plain scalars YAML resolves to booleans / null / numbers, in every position of the detection.
+fn c14_text_vs_value(ctx: &mut Ctx) {
+    let names = ["A", "true", "false", "null", "True", "NULL", "yes", "n0", "1", "1.5", "~", "0x10", "a.b", "-x"];
+    let keys = ["f", "true", "null", "1", "int(n)", "not(s)", "all(f)"];
+    let vals = ["bar", "true", "null", "1", "1.5", "~", "0x1F", "'01'", "\"q\"", "[a, true, 1]", "{k: true}", "!t x", "*x*", "i?Ab"];
+    let m = budget(ctx, 600, 6000);
+    for i in 0..m {
+        let mut r = Rng::new(ctx.seed.wrapping_mul(733).wrapping_add(i as u64));
+        let n1 = *r.pick(&names);
+        let n2 = *r.pick(&names);
+        let cond = match r.below(5) {
+            0 => n1.to_string(),
+            1 => format!("{} and {}", n1, n2),
+            2 => format!("not {}", n1),
+            3 => format!("all({})", n1),
+            _ => format!("{} or not {}", n2, n1),
+        };
+        let mut text = String::from("detection:\n");
+        let cond_first = r.chance(30);
+        if cond_first {
+            text.push_str(&format!("  condition: {}\n", cond));
+        }
+        text.push_str(&format!("  {}:\n    {}: {}\n", n1, r.pick(&keys), r.pick(&vals)));
+        if n2 != n1 {
+            text.push_str(&format!("  {}:\n    {}: {}\n", n2, r.pick(&keys), r.pick(&vals)));
+        }
+        if !cond_first {
+            text.push_str(&format!("  condition: {}\n", cond));
+        }
+        text.push_str("true_positives: []\ntrue_negatives:\n- f: bar\n- !t {f: true}\n");
+        ctx.evaluations += 1;
+        ctx.distinct.insert(hash_str(&text));
+        let a = std::panic::catch_unwind(|| Rule::from_str(&text));
+        let value: Yaml = match serde_yaml::from_str(&text) {
+            Ok(v) => v,
+            Err(_) => continue,
+        };
+        let b = std::panic::catch_unwind(|| Rule::from_value(value.clone()));
+        let dummy = Exchange { line: format!("text-vs-value {}", i), imp: String::new(), model: String::new(), agree: true, supported: false };
+        let (a, b) = match (a, b) {
+            (Ok(a), Ok(b)) => (a, b),
+            _ => {
+                ctx.violation("oracle", "loading panicked", &dummy, &text, true);
+                continue;
+            }
+        };
+        match (&a, &b) {
+            (Ok(x), Ok(y)) => {
+                ctx.nontrivial.insert(hash_str(&text));
+                let sa = format!("{} {}", crate::sx::expr_sx(&x.detection.expression), implside::ids_sx(&x.detection.identifiers));
+                let sb = format!("{} {}", crate::sx::expr_sx(&y.detection.expression), implside::ids_sx(&y.detection.identifiers));
+                if sa != sb {
+                    ctx.violation("oracle", &format!("from_str and from_value of the same text build different rules: {}", first_diff(&sa, &sb)), &dummy, &text, true);
+                }
+            }
+            (Err(_), Err(_)) => ctx.stat("text-vs-value-both-reject"),
+            (Ok(_), Err(e)) => ctx.violation("oracle", &format!("the text loads with from_str but its YAML value does not load with from_value: {}", e), &dummy, &text, true),
+            (Err(e), Ok(_)) => ctx.violation("oracle", &format!("the YAML value loads with from_value but the text does not load with from_str: {}", e), &dummy, &text, true),
+        }
+    }
+}
+
 pub fn run_c14(ctx: &mut Ctx, _known: &Known) {
+    c14_text_vs_value(ctx);
     let n = budget(ctx, 1200, 30000);
     let tricky = ["*x", "?re", "'01'", "1", "true", "~", "0x1F", "1e3", "a\nb", "a\tb", " lead", "trail ", "- dash", "a: b", "#hash", "\"q\"", "'q'", "i*", "null", "NO", "0o7", "=1", ">=2.5", "{a}", "[a]", "a,b", "&x", "!t", "%p", "@a", "`b"];
     for i in 0..n {
